@@ -403,6 +403,27 @@ def length_sensitive_family():
     return out
 
 
+def unwrap_family():
+    """every wrapper that unwraps / shelters the pending error (recovery strategies, map_err, try_map, not, labels) around
+    every parser shape that can fail, nested two deep: a failing run must always leave a pending error behind, for every
+    error type — the zero-sized one included (fast paths!)"""
+    a, b = ('just', [A]), ('just', [B])
+    xs = [a, ('then', a, b), ('any',), ('oneof', [A, B]), ('filter', ('tokis', A), ('any',)), ('cfail', 3), ('end',),
+          ('trymap', ('tokis', B), 4, 2, ('any',)), ('collect', 'vec', ('rep', a, 1, None)), ('collectx', 2, ('rep', a, 0, None)),
+          ('choices', []), ('not', a), ('andis', a, b), ('validate', 'always', 5, 1, a)]
+    inners = DECORATIONS + [lambda x: ('trymap', ('never',), 4, 2, x), lambda x: ('not', ('not', x)), lambda x: ('boxed', x),
+                            lambda x: ('rewind', x), lambda x: ('mwstate', x), lambda x: ('ornot', ('then', x, ('cfail', 3)))]
+    outers = RECOVERIES + [lambda x: ('maperr', 3, x)]
+    out = []
+    for x in xs:
+        for i in inners:
+            for o in outers:
+                g = o(i(x))
+                out.append(g)
+                out.append(('or', ('then', g, b), ('then', g, a)))
+    return out
+
+
 def abandon_family():
     """emit-then-fail bodies inside every kind of abandonable context (the emission must not survive), and the same
     bodies made to succeed (the emission must be kept)"""
